@@ -563,36 +563,43 @@ def _run_real(dirpath, cfg, seeds, full_parse):
     return ('ok', nodes, edges)
 
 
-def run_real(dirpath, cfg, seeds, full_parse, expect_abs=None):
-    """run the real Scheduler.  Loki keeps interpreter-global state: rarely the outcome of a full parse depends on
-    projects handled earlier in the same process (AssertionError 'Missing type information for variable symbol',
-    not reproducible in a fresh interpreter).  An error the model does not know is therefore re-examined in a fresh
-    interpreter, and that verdict is the one reported.  With two paths equal up to case the discovered project depends
-    on set() order, i.e. on the hash seed: the fresh interpreter is started with hash seeds 0, 1, … until its exported
-    abstraction equals ``expect_abs`` (the one the request carries)."""
+def isolated_run(dirpath, cfg, seeds, full_parse, expect_abs=None):
+    """the real Scheduler in a fresh interpreter.  With two paths equal up to case the discovered project depends on
+    set() order, i.e. on the hash seed: hash seeds 0, 1, … are tried until the exported abstraction equals
+    ``expect_abs`` (the one the request carries).  None if no run could be obtained."""
+    import json
+    import os
+    import subprocess
+    import sys
+    payload = json.dumps(dict(dir=str(dirpath), cfg=cfg, seeds=list(seeds), fp=full_parse, abs=expect_abs))
+    code = ('import json,sys\nfrom harness.props import c21\nfrom harness.sexpr import dumps\n'
+            'd=json.loads(sys.stdin.read())\n'
+            'ok = d["abs"] is None or dumps(c21.export_abs(d["dir"])) == d["abs"]\n'
+            'r=c21._run_real(d["dir"],d["cfg"],d["seeds"],d["fp"]) if ok else None\n'
+            'print("C21RESULT"+json.dumps([ok, r]))')
+    for hs in range(16):
+        env = dict(os.environ, PYTHONHASHSEED=str(hs))
+        p = subprocess.run([sys.executable, '-W', 'ignore', '-c', code], input=payload, text=True, capture_output=True,
+                           cwd=str(Path(__file__).resolve().parent.parent.parent), timeout=600, env=env)
+        for line in p.stdout.splitlines():
+            if line.startswith('C21RESULT'):
+                ok, r = json.loads(line[len('C21RESULT'):])
+                if ok:
+                    if r[0] == 'ok':
+                        return ('ok', [tuple(x) for x in r[1]], [tuple(x) for x in r[2]])
+                    return tuple(r)
+    return None
+
+
+def run_real(dirpath, cfg, seeds, full_parse, expect_abs=None, doubt=None):
+    """run the real Scheduler.  Loki keeps interpreter-global state: rarely the outcome depends on projects handled
+    earlier in the same process (AssertionError 'Missing type information for variable symbol' in a full parse, or a
+    RuntimeError, neither reproducible in a fresh interpreter).  An error the model does not know, and any error
+    ``doubt(res)`` flags (the caller's reference expects a graph and no known class applies), is re-examined in a
+    fresh interpreter, and that verdict is the one reported."""
     res = _run_real(dirpath, cfg, seeds, full_parse)
-    if res[0] == 'error' and res[1] not in MODELLED_ERRORS:
-        import json
-        import os
-        import subprocess
-        import sys
-        payload = json.dumps(dict(dir=str(dirpath), cfg=cfg, seeds=list(seeds), fp=full_parse, abs=expect_abs))
-        code = ('import json,sys\nfrom harness.props import c21\nfrom harness.sexpr import dumps\n'
-                'd=json.loads(sys.stdin.read())\n'
-                'ok = d["abs"] is None or dumps(c21.export_abs(d["dir"])) == d["abs"]\n'
-                'r=c21._run_real(d["dir"],d["cfg"],d["seeds"],d["fp"]) if ok else None\n'
-                'print("C21RESULT"+json.dumps([ok, r]))')
-        for hs in range(16):
-            env = dict(os.environ, PYTHONHASHSEED=str(hs))
-            p = subprocess.run([sys.executable, '-W', 'ignore', '-c', code], input=payload, text=True, capture_output=True,
-                               cwd=str(Path(__file__).resolve().parent.parent.parent), timeout=600, env=env)
-            for line in p.stdout.splitlines():
-                if line.startswith('C21RESULT'):
-                    ok, r = json.loads(line[len('C21RESULT'):])
-                    if ok:
-                        if r[0] == 'ok':
-                            return ('ok', [tuple(x) for x in r[1]], [tuple(x) for x in r[2]])
-                        return tuple(r)
+    if res[0] == 'error' and (res[1] not in MODELLED_ERRORS or (doubt is not None and doubt(res))):
+        return isolated_run(dirpath, cfg, seeds, full_parse, expect_abs) or res
     return res
 
 
@@ -1025,7 +1032,9 @@ class C21(Prop):
         d = project_dir(proj)
         if dumps(export_abs(d)) != dumps(field(req, 'abs')):
             return [A('error'), A('stale-abstraction')]
-        res = run_real(d, cfg, seeds, fullparse, expect_abs=dumps(field(req, 'abs')))
+        ref = reference_graph(proj, cfg, seeds)
+        res = run_real(d, cfg, seeds, fullparse, expect_abs=dumps(field(req, 'abs')),
+                       doubt=lambda r: ref[0] == 'ok' and self.classify(proj, cfg, fullparse, ref, r) is None)
         if res[0] == 'error':
             return [A('error'), A(res[1])]
         return [A('ok'), [A('nodes')] + [[n, A(k)] for n, k in res[1]], [A('edges')] + [[a, b] for a, b in res[2]]]
@@ -1052,7 +1061,8 @@ class C21(Prop):
         ref = reference_graph(proj, cfg, seeds)
         if ref[0] == 'undefined':
             return []
-        res = run_real(project_dir(proj), cfg, seeds, fullparse)
+        res = run_real(project_dir(proj), cfg, seeds, fullparse,
+                       doubt=lambda r: ref[0] == 'ok' and self.classify(proj, cfg, fullparse, ref, r) is None)
         cls = self.classify(proj, cfg, fullparse, ref, res)
         if ref[0] == 'error':
             if res[0] != 'error':
